@@ -246,6 +246,7 @@ let run (line : string) : string =
   | "wf" -> show_bool (wf (parse_shape a.(1)))
   | "oneof_free" -> show_bool (oneof_free (parse_shape a.(1)))
   | "nodup" -> show_bool (nodup_keys (parse_doc a.(1)))
+  | "conflict_free" -> show_bool (conflict_free (parse_doc a.(1)))
   | op -> Genops.run op a
 
 let () =
